@@ -437,4 +437,72 @@ theorem run_dead (env : Env) (tot : Total env) : ∀ (ops : List Op) (s : St), s
     simp only [h, Bool.false_eq_true, if_false]
     exact run_dead env tot ops _ ((step_dead env tot s op).trans h)
 
+/-! ### erasing the switch operations -/
+
+def isDbg : Op → Bool
+| .dbg _ => true
+| _ => false
+
+/-- drop the transcript tokens that belong to OpenDebug/CloseDebug/OpenTrace/CloseTrace operations -/
+def eraseToks : List Op → List String → List String
+| op :: ops, t :: ts => if isDbg op then eraseToks ops ts else t :: eraseToks ops ts
+| _, _ => []
+
+theorem run_of_dead (env : Env) (ops : List Op) (s : St) (h : s.dead = true) : (run env s ops).1 = [] := by
+  cases ops with
+  | nil => rfl
+  | cons op rest => unfold run; simp only [h, if_true]
+
+theorem eraseToks_nil (ops : List Op) : eraseToks ops [] = [] := by
+  cases ops <;> rfl
+
+theorem dbg_sim (env : Env) (a : St) (d : DbgOp) : Sim (step env a (.dbg d)).1 a ∧ (step env a (.dbg d)).2 = "ok" := by
+  cases d <;> exact ⟨⟨rfl, rfl, rfl⟩, rfl⟩
+
+theorem Sim.symm' {a b : St} (h : Sim a b) : Sim b a := ⟨h.ws.symm, h.inst.symm, h.dead.symm⟩
+theorem Sim.trans' {a b c : St} (h : Sim a b) (g : Sim b c) : Sim a c := ⟨h.ws.trans g.ws, h.inst.trans g.inst, h.dead.trans g.dead⟩
+
+theorem run_erase (env : Env) (tot : Total env) : ∀ (ops : List Op) (a b : St), Sim a b →
+    (run env b (ops.filter (fun o => !isDbg o))).1 = eraseToks ops (run env a ops).1
+  | [], a, b, h => rfl
+  | op :: ops, a, b, h => by
+    cases hd : a.dead with
+    | true =>
+      rw [run_of_dead env _ a hd, run_of_dead env _ b (h.dead ▸ hd), eraseToks_nil]
+    | false =>
+      have hb : b.dead = false := h.dead ▸ hd
+      cases hop : isDbg op with
+      | true =>
+        cases op with
+        | dbg d =>
+          have hs := dbg_sim env a d
+          have ih := run_erase env tot ops _ b (hs.1.trans' h)
+          have hf : (Op.dbg d :: ops).filter (fun o => !isDbg o) = ops.filter (fun o => !isDbg o) := by
+            rw [List.filter_cons]; simp only [hop, Bool.not_true, Bool.false_eq_true, if_false]
+          have hr : (run env a (Op.dbg d :: ops)).1 = "ok" :: (run env (step env a (.dbg d)).1 ops).1 := by
+            conv => lhs; unfold run
+            simp only [hd, Bool.false_eq_true, if_false, hs.2]
+          rw [hf, ih, hr]
+          simp only [eraseToks, hop, if_true]
+        | apply _ => simp [isDbg] at hop
+        | ret _ => simp [isDbg] at hop
+        | «when» _ _ => simp [isDbg] at hop
+        | rets _ => simp [isDbg] at hop
+        | call _ => simp [isDbg] at hop
+        | cancel => simp [isDbg] at hop
+      | false =>
+        have hs := step_sim env tot a b h op
+        have ih := run_erase env tot ops _ _ hs.2
+        have hf : (op :: ops).filter (fun o => !isDbg o) = op :: ops.filter (fun o => !isDbg o) := by
+          rw [List.filter_cons]; simp only [hop, Bool.not_false, if_true]
+        have hra : (run env a (op :: ops)).1 = (step env a op).2 :: (run env (step env a op).1 ops).1 := by
+          conv => lhs; unfold run
+          simp only [hd, Bool.false_eq_true, if_false]
+        have hrb : (run env b (op :: ops.filter (fun o => !isDbg o))).1
+            = (step env b op).2 :: (run env (step env b op).1 (ops.filter (fun o => !isDbg o))).1 := by
+          conv => lhs; unfold run
+          simp only [hb, Bool.false_eq_true, if_false]
+        rw [hf, hrb, hra, ih, hs.1]
+        simp only [eraseToks, hop, Bool.false_eq_true, if_false]
+
 end C19L
